@@ -126,6 +126,26 @@ class ORMatic:
         for edge in self.class_dependency_graph.inheritance_relations:
             self.inheritance_graph.add_edge(edge.source.index, edge.target.index, None)
 
+        # A class whose direct base is not part of the class diagram derives its table from the nearest mapped
+        # ancestor, hence it has to come after that ancestor as well.
+        mapped_classes = {
+            w.clazz: w for w in self.class_dependency_graph.wrapped_classes
+        }
+        for wrapped_class in self.class_dependency_graph.wrapped_classes:
+            for base in wrapped_class.clazz.__bases__:
+                if base in mapped_classes:
+                    continue
+                ancestor = next(
+                    (mapped_classes[c] for c in base.__mro__ if c in mapped_classes),
+                    None,
+                )
+                if ancestor is not None and not self.inheritance_graph.has_edge(
+                    ancestor.index, wrapped_class.index
+                ):
+                    self.inheritance_graph.add_edge(
+                        ancestor.index, wrapped_class.index, None
+                    )
+
     def _add_alternative_mappings_to_class_diagram(self):
         """
         Add alternative mappings to the class diagram.
